@@ -412,7 +412,7 @@ namespace igris
         void round_left()
         {
             auto *node = list.next;
-            move_back(node);
+            dlist_base::move_back(*node);
         }
 
         iterator begin()
